@@ -303,7 +303,7 @@ class Sym:
                 raise ZeroDivisionError('division by a series with zero constant term')
             r = rat(1 / val(c0))
         else:
-            key = ('inv', c0.get_id())
+            key = sem_key('inv', c0)
             if key not in C.memo:
                 r = C.fresh('r')
                 C.cons.append(r * c0 == 1)
@@ -346,7 +346,7 @@ class Sym:
             if s.nil().co:
                 raise ArithmeticError('sqrt of an infinitesimal')
             return J(0)
-        key = ('sqrt', c0.get_id())
+        key = sem_key('sqrt', c0)
         if key not in C.memo:
             done = False
             if is_val(c0):
@@ -512,6 +512,20 @@ class Sym:
                 if (s >= lo) and (s < lo + m):
                     return s - lo
             raise SymbolicBranch('mod argument outside the bounded case split')
+        if mode == 'real':
+            # the remainder as a fresh real in [0, m), one per distinct argument: that it is
+            # congruent to the argument is the contract of `%` itself (no integer quotient in
+            # the constraint set, which keeps every query linear real arithmetic)
+            key = ('mod', c0.get_id(), m)
+            if key not in C.memo:
+                rr = C.fresh('mod')
+                C.cons += [rr >= 0, rr < rat(m)]
+                C.defs[str(rr)] = ('mod', c0, m)
+                C.memo[key] = (rr, c0)
+                C.keep.append(c0)
+            r = dict(s.co)
+            r[C.zero] = C.memo[key][0]
+            return Sym(r)
         q = z3.Int('q!%d' % C.cnt)
         C.cnt += 1
         rr = C.fresh('mod')
@@ -559,6 +573,21 @@ def canon(t, limit=400):
     if _size(t, limit) < limit:
         t = z3.simplify(t, som=True)
     return t
+
+
+def sem_key(kind, t):
+    """memo key for auxiliary variables: the exact polynomial normal form of the argument modulo
+    the sin/cos relations when it is cheap to compute (semantically equal arguments then share
+    one auxiliary variable), else the AST id of its canonical form"""
+    if _size(t, 1500) < 1500:
+        try:
+            from . import poly
+            p = poly._reduce_trig(poly.from_z3(t), C)
+            if len(p.t) < 2000:
+                return (kind, 'poly', tuple(sorted(p.t.items())))
+        except Exception:       # noqa: BLE001 - any failure falls back to the syntactic key
+            pass
+    return (kind, t.get_id())
 
 
 def _size(t, limit):
